@@ -238,11 +238,10 @@ func (d Dur) Class() string {
 	case "n":
 		return "dur:n"
 	case "hm", "hms":
-		c := "dur:" + d.Form
 		if d.Parts[1] > 32767 {
-			c += ":hours>32767"
+			return "dur:h:m[:s]:hours>32767"
 		}
-		return c
+		return "dur:" + d.Form
 	}
 	c := "dur:units:"
 	for i, u := range "dhms" {
